@@ -269,6 +269,29 @@ def locate_model(fold, field):
     return model
 
 
+def _whole_of_rope(I, fold, L):
+    """fold over an SList whose items are objects and segments of symbolic length: distributes over the parts"""
+    from .values import SList, ListSeg, SObj, ObjView
+    acc = fold.zero()
+    for it in L.items:
+        if isinstance(it, ListSeg):
+            view = ListView(it.lst)
+            part = fold.state(I, view)['F'](view.n)
+            fold.touch(I, view, view.n)
+        elif isinstance(it, SObj):
+            funcs = next((x.lst.funcs for x in L.items if isinstance(x, ListSeg)), None)
+            part = fold.term(ObjView(it, funcs), None)
+        else:
+            raise Unsupported(f"{fold.name}: list item of another kind")
+        acc = fold.plus(acc, part)
+    return fold.wrap(z3.simplify(acc))
+
+
+def is_rope(v):
+    from .values import SList, ListSeg
+    return isinstance(v, SList) and any(isinstance(x, ListSeg) for x in v.items)
+
+
 def prefix_model(fold):
     def model(I, args):
         L, i = args
@@ -282,6 +305,8 @@ def prefix_model(fold):
 def whole_model(fold):
     def model(I, args):
         (L,) = args
+        if is_rope(L):
+            return _whole_of_rope(I, fold, L)
         if not isinstance(L, SymList):
             return NotImplemented
         return fold.whole(I, ListView(L))
